@@ -1,0 +1,167 @@
+//!
+//! Verification hooks (only compiled with the cargo feature `verif-hooks`).
+//!
+//! Thin wrappers around crate-private pure functions and read-only snapshots
+//! of internal containers.  Nothing here changes the behaviour of the library.
+//!
+
+use crate::common::{alc, lct, oti, partition, pkt, Profile};
+use crate::tools;
+use std::time::SystemTime;
+
+/// RFC 5052 block partitioning as computed by the library
+/// returns (a_large, a_small, nb_a_large, nb_blocks)
+pub fn block_partitioning(b: u64, l: u64, e: u64) -> (u64, u64, u64, u64) {
+    partition::block_partitioning(b, l, e)
+}
+
+/// Size of a block in bytes as computed by the library
+pub fn block_length(a_large: u64, a_small: u64, nb_a_large: u64, l: u64, e: u64, sbn: u32) -> u64 {
+    partition::block_length(a_large, a_small, nb_a_large, l, e, sbn)
+}
+
+/// Fields of an ALC packet to build
+#[derive(Debug, Clone)]
+pub struct PktFields {
+    /// Congestion control information
+    pub cci: u128,
+    /// Transport session id
+    pub tsi: u64,
+    /// Transport object id
+    pub toi: u128,
+    /// FDT instance id (TOI 0 only)
+    pub fdt_id: Option<u32>,
+    /// Source block number
+    pub sbn: u32,
+    /// Encoding symbol id
+    pub esi: u32,
+    /// Source block length (payload id of under-specified schemes)
+    pub source_block_length: u32,
+    /// Content encoding
+    pub cenc: lct::Cenc,
+    /// Insert EXT_CENC
+    pub inband_cenc: bool,
+    /// Close object flag
+    pub close_object: bool,
+    /// Insert EXT_TIME (SCT)
+    pub sender_current_time: bool,
+    /// Transfer length (EXT_FTI)
+    pub transfer_length: u64,
+    /// Payload
+    pub payload: Vec<u8>,
+}
+
+/// Build an ALC packet with the library's packet builder
+pub fn build_alc_pkt(oti: &oti::Oti, f: &PktFields, profile: Profile, now: SystemTime) -> Vec<u8> {
+    let p = pkt::Pkt {
+        payload: f.payload.clone(),
+        transfer_length: f.transfer_length,
+        esi: f.esi,
+        sbn: f.sbn,
+        toi: f.toi,
+        fdt_id: f.fdt_id,
+        cenc: f.cenc,
+        inband_cenc: f.inband_cenc,
+        close_object: f.close_object,
+        source_block_length: f.source_block_length,
+        sender_current_time: f.sender_current_time,
+    };
+    alc::new_alc_pkt(oti, &f.cci, f.tsi, &p, profile, now)
+}
+
+/// Build a close session packet with the library's packet builder
+pub fn build_close_session_pkt(cci: u128, tsi: u64) -> Vec<u8> {
+    alc::new_alc_pkt_close_session(&cci, tsi)
+}
+
+/// SystemTime to NTP as computed by the library
+pub fn system_time_to_ntp(time: SystemTime) -> Option<u64> {
+    tools::system_time_to_ntp(time).ok()
+}
+
+/// NTP to SystemTime as computed by the library
+pub fn ntp_to_system_time(ntp: u64) -> Option<SystemTime> {
+    tools::ntp_to_system_time(ntp).ok()
+}
+
+/// Snapshot of one file known by the sender
+#[derive(Debug, Clone)]
+pub struct SenderFileSnapshot {
+    /// TOI
+    pub toi: u128,
+    /// is transferring
+    pub transferring: bool,
+    /// transfer count (reset by carousel)
+    pub transfer_count: u32,
+    /// total number of transfers
+    pub total_nb_transfer: u64,
+    /// published flag
+    pub published: bool,
+}
+
+/// Snapshot of the sender
+#[derive(Debug, Clone)]
+pub struct SenderSnapshot {
+    /// next FDT instance id
+    pub fdtid: u32,
+    /// FDT instance ids waiting for transmission
+    pub fdt_queue: Vec<u32>,
+    /// FDT instance id currently selected (id, transferring)
+    pub fdt_current: Option<(u32, bool)>,
+    /// TOIs waiting for transmission, in order
+    pub files_queue: Vec<u128>,
+    /// files listed
+    pub files: Vec<SenderFileSnapshot>,
+    /// per priority queue: (priority, round-robin index, TOI per slot)
+    pub sessions: Vec<(u32, usize, Vec<Option<u128>>)>,
+    /// TOI of the FDT session, if busy
+    pub fdt_session_busy: bool,
+}
+
+/// Snapshot of one object being received
+#[derive(Debug, Clone)]
+pub struct ObjectSnapshot {
+    /// TOI
+    pub toi: u128,
+    /// state: 0 receiving, 1 completed, 2 interrupted, 3 error
+    pub state: u8,
+    /// number of packets cached
+    pub cache_pkts: usize,
+    /// bytes cached (summed over the cached packets)
+    pub cache_bytes: usize,
+    /// value of the library's own cache counter
+    pub cache_counter: usize,
+    /// number of block slots
+    pub nb_blocks: usize,
+    /// blocks already written
+    pub blocks_offset: usize,
+    /// number of allocated blocks
+    pub nb_allocated_blocks: usize,
+    /// bytes of allocated blocks according to the library
+    pub allocated_bytes: usize,
+    /// writer session: 0 none, 1 idle, 2 opened, 3 closed, 4 error
+    pub writer: u8,
+    /// attached FDT instance
+    pub fdt_instance_id: Option<u32>,
+    /// OTI known
+    pub has_oti: bool,
+}
+
+/// Snapshot of a receiver
+#[derive(Debug, Clone)]
+pub struct ReceiverSnapshot {
+    /// TSI
+    pub tsi: u64,
+    /// objects being received
+    pub objects: Vec<ObjectSnapshot>,
+    /// completed registry
+    pub completed: Vec<u128>,
+    /// error registry
+    pub errors: Vec<u128>,
+    /// FDT receivers (id, state: 0 receiving, 1 complete, 2 error, 3 expired)
+    pub fdt_receivers: Vec<(u32, u8)>,
+    /// current FDT ids, newest first, with state
+    pub fdt_current: Vec<(u32, u8)>,
+    /// close session seen
+    pub closing: bool,
+}
